@@ -2141,19 +2141,25 @@ def reorder_model(P, R):
         q = 'dd.bdd._sort_to_order'
         for start in perms:
             for target in perms:
-                mdl = _OrderModel(start, target)
-                order = {v: k for k, v in enumerate(target)}
-                f, (out, m) = run(q, mdl, [mdl.handle(), dict(order)])
-                what = f'order {list(start)} sorted to {list(target)}'
-                if mdl.complaints:
-                    problems.setdefault((q, 'non-adjacent-swap'),
-                                        f'{what}: {mdl.complaints[0]}')
-                elif out[0] == 'raise':
-                    problems.setdefault((q, 'raises'),
-                                        f'{what}: raises {out[1]}')
-                elif mdl.vars != order:
-                    problems.setdefault((q, 'order-not-reached'), (
-                        f'{what}: ends with {mdl.order()}'))
+                # (the mapping listed by level, by name, and bottom up:
+                # the order in which a mapping lists its entries is not
+                # part of what it asks for)
+                for listed in (list(target), sorted(target),
+                               list(reversed(target))):
+                    mdl = _OrderModel(start, target)
+                    order = {v: target.index(v) for v in listed}
+                    f, (out, m) = run(q, mdl, [mdl.handle(), dict(order)])
+                    what = (f'order {list(start)} sorted to the mapping '
+                            f'{order}')
+                    if mdl.complaints:
+                        problems.setdefault((q, 'non-adjacent-swap'),
+                                            f'{what}: {mdl.complaints[0]}')
+                    elif out[0] == 'raise':
+                        problems.setdefault((q, 'raises'),
+                                            f'{what}: raises {out[1]}')
+                    elif mdl.vars != order:
+                        problems.setdefault((q, 'order-not-reached'), (
+                            f'{what}: ends with {mdl.order()}'))
         # ---- reorder_to_pairs: disjoint pairs
         q = 'dd.bdd.reorder_to_pairs'
         pairings = [{'a': 'b'}, {'a': 'c'}, {'d': 'a'}, {'b': 'd'},
